@@ -318,6 +318,7 @@ def plan(tier, seed):
     jobs += [('bfs', (NK - 1,), depth)]
     jobs += gen.string_jobs('str', len(SIGMA), 4 if q else 5, plen=2)
     jobs += [('bom', i) for i in range(4)]
+    jobs += [('bommid', n, a) for n in range(1, (5 if q else 6)) for a in range(8)]
     return jobs
 
 
@@ -334,6 +335,13 @@ def run_job(job, T):
             s = '\ufeff' + s
             check_text(T, 'bom-strings', {'input': s}, s)
         T.sample('bom-strings', {'input': s})
+    elif kind == 'bommid':
+        # a byte order mark anywhere in the text: the Reader gives it no width (O-linecol: U+FEFF never advances the column)
+        alpha = ['a', ' ', '\n', ':', '-', '\ufeff', '"', '#']
+        for s in gen.iter_strings(alpha, job[1], (job[2],)):
+            if '\ufeff' in s:
+                check_text(T, 'bom-anywhere', {'input': s}, s)
+        T.sample('bom-anywhere', {'input': s})
     elif kind == 'corpus':
         path = os.path.join(os.environ.get('VERIF_REPO', '/repo'), 'tests', 'legacy_tests', 'data', job[1])
         raw = open(path, 'rb').read()
